@@ -93,6 +93,28 @@ def after_abort(spec):
         return 'EXC', type(e).__name__
 
 
+def after_scoped_search(spec):
+    """read-only searches with options (scope, multi-component patterns, both filter settings) must leave the molecule as it was"""
+    from vf import molgen
+    from chython import smarts
+    a, ref = molgen.build(spec), molgen.build(spec)
+    try:
+        nums = list(a)
+        scope = nums[: max(1, len(nums) // 2)]
+        for q in (smarts('[A].[A]'), smarts('[A][A].[A]'), smarts('[A]')):
+            list(q.get_mapping(a, searching_scope=scope))
+            list(q.get_mapping(a, searching_scope=scope, automorphism_filter=False))
+        sub = a.substructure(scope)
+        list(sub.get_mapping(a, searching_scope=scope))
+        q2 = smarts('[A][A]')
+        def vals(x):
+            return (str(x), sorted(map(sorted, x.connected_components)), [str(y) for y in x.split()],
+                    sorted(tuple(sorted(mp.items())) for mp in q2.get_mapping(x, automorphism_filter=False)), tuple(map(tuple, x.sssr)))
+        return vals(a) == vals(ref)
+    except Exception as e:
+        return 'EXC', type(e).__name__
+
+
 def in_reaction(spec, partner):
     """the molecule's own values after it served as a member of a reaction whose string / hash / CGR were computed first"""
     from vf import molgen
@@ -156,6 +178,11 @@ def main():
                     cached['rxn:member'] = copied['rxn:member'] = other['rxn:member'] = member
             except molgen.Reject:
                 first['rxn:member'] = None
+            sc = after_scoped_search(spec)
+            first['search:state'] = True if not isinstance(sc, tuple) else sc
+            if sc is False:
+                bad.append('search:state')
+                cached['search:state'] = copied['search:state'] = other['search:state'] = False
             ab = after_abort(spec)
             first['txn:abort'] = True if not isinstance(ab, tuple) else ab
             if ab is False:
@@ -168,7 +195,7 @@ def main():
                     bad.append('op:' + op)
                     cached['op:' + op] = copied['op:' + op] = other['op:' + op] = warm
             out.write(json.dumps({'i': i, 's': first['str'] if isinstance(first['str'], str) else None,
-                                  'digest': {k: dg(first[k]) for k in KEYS + ['op:' + o for o in MUTATORS] + ['rxn:member', 'txn:abort']}, 'inconsistent': bad,
+                                  'digest': {k: dg(first[k]) for k in KEYS + ['op:' + o for o in MUTATORS] + ['rxn:member', 'txn:abort', 'search:state']}, 'inconsistent': bad,
                                   'detail': {k: [dg(first[k]), dg(cached[k]), dg(copied[k]), dg(other[k])] for k in bad},
                                   'ties': len(set(a.atoms_order.values())) < len(a), 'rings': a.rings_count}) + '\n')
 
